@@ -18,7 +18,7 @@ import c01
 
 COQ_FILES = ENGINE_COQ + ['C01/Proofs.v', 'C09/Proofs.v', 'C02/Proofs.v', 'C02/Props.v']
 SIG_F2 = 'C02/most-specific-tag-only-rule-sets-merchant-subcategory'
-SIG_BLANK = 'C02/blank-item-of-list-valued-tag-kept'
+SIG_BLANK = 'C02/blank-item-of-list-valued-tag-kept'      # status fixed: classified for the report, no longer suppressed
 SIG_F1 = 'C02/legacy-csv-pattern-evaluated-as-expression'
 
 
